@@ -5,7 +5,10 @@ a multi-image whose every scalar is a distinct id; after the chain the state mus
 one by type (with D, is_torus and key set), every intermediate pure re-layout must hold each id exactly
 once, and the scalar layout is compared with the reference layout channel*D^k+component. Class-level
 recorders count the re-layout methods reached; the icontract structural invariant on MultiImage is
-evaluated at every public method exit (deciding here). Save/load: outputs bit for bit."""
+evaluated at every public method exit (deciding here). Every re-layout that does not pass through jax's pytree
+flattening must also hand back the blocks in the storage order it received (per-operation contract). Payloads: float32,
+int32, float64 under x64. Save/load: outputs bit for bit, templates differing in non-array leaves, and the checkpoints
+written by ml.train(save_model=...) against the model of their epoch."""
 from __future__ import annotations
 
 import os
